@@ -276,8 +276,8 @@ def spec_precompute():
         if (frm, to) == ('entry', 'L0'):
             return {'precomputed.prodexp': G1('params.g3'), 'L:i': C(0)}
         if (frm, to) == ('L0', 'L0'):
-            if eq(c, 'L:i', 'attrs.length') is not False or len(c) != 1:
-                raise Mismatch('an iteration of precompute is conditional on more than i != attrs.length: some listed attribute is not bound')
+            if eq(c, 'L:i', 'attrs.length') is not False:
+                raise Mismatch('an iteration of precompute runs without i != attrs.length')
             return {'L:i': S('L:i') + 1,
                     'precomputed.prodexp': G1('precomputed.prodexp') + G1('params.h[attrs.attrs[L:i].idx]').scale(S('attrs.attrs[L:i].id'))}
         if (frm, to) == ('L0', 'exit'):
@@ -433,8 +433,8 @@ def spec_resamplekey():
                 e['resampled.l'] = C(0)
             return e
         if (frm, to) == ('L0', 'L0'):
-            if eq(c, 'L:i', 'sk.l') is not False or len(c) != 1:
-                raise Mismatch('conditional re-randomisation of a free slot')
+            if eq(c, 'L:i', 'sk.l') is not False:
+                raise Mismatch('re-randomisation iteration without i != sk.l')
             return {'L:i': S('L:i') + 1, 'resampled.b[L:i].idx': S('sk.b[L:i].idx'),
                     'resampled.b[L:i].hexp': G1('sk.b[L:i].hexp') + G1('params.h[sk.b[L:i].idx]').scale(t)}
         if (frm, to) == ('L0', 'exit'):
@@ -459,8 +459,6 @@ def spec_setup():
             e['params.hsig'] = G1('gen#5') if sig else Z1
             return e
         if (frm, to) == ('L0', 'L0'):
-            if len(c) != 1:
-                raise Mismatch('conditional generation of h[i]')
             # every h[i] is an independent fresh generator
             return {'L:i': S('L:i') + 1, 'params.h[L:i]': ('fresh', 'G1')}
         if (frm, to) == ('L0', 'exit'):
@@ -619,11 +617,14 @@ def check_function(prog, spec):
     problems = []
     nseg = 0
     scratch = set(spec.get('scratch', []))
+    work = []
     for (frm, to, path) in grpdom.segments(g):
         try:
-            seg, conds = grpdom.run_path(prog, f, g, path)
+            for (seg, conds) in grpdom.run_path_all(prog, f, g, path):
+                work.append((frm, to, path, seg, conds))
         except grpdom.Unsupported as e:
             raise bm.AnalysisBroken('R-SCHEME cannot model %s (%s -> %s): %s' % (spec['fn'], frm, to, e))
+    for (frm, to, path, seg, conds) in work:
         if seg is None:
             continue
         # the same test on the same values cannot come out differently twice: such a path is infeasible
